@@ -27,6 +27,7 @@ def run(ck, tier, seed):
         js = corpus.jobs(maxlines=600 if mode != "fresh" else (60 if q else 600), with_fonttests=False)
         # a font with application-supplied advances caches them per gr_font: shared, reversed and cold must still agree
         js += [dict(j, hinted=1, ppm=13, id=j["id"] + ":hinted") for j in corpus.jobs(maxlines=60, with_fonttests=False)]
+        js.append(corpus.pseudo_font_job(tmp))      # duplicate entries in the pseudo-glyph map: the first one wins, always
         for j in js:
             j["opts"] = 0
             if mode == "reverse":
